@@ -1510,6 +1510,7 @@ impl Compiler {
                 &instance_private_methods,
                 class_brand,
                 class_name.clone(),
+                has_super,
             )?
         } else {
             self.compile_default_constructor(
@@ -2144,6 +2145,7 @@ impl Compiler {
         instance_private_methods: &[&ClassMethod],
         class_brand: u32,
         name: Option<JsString>,
+        has_super: bool,
     ) -> Result<super::BytecodeChunk, JsError> {
         use super::FunctionInfo;
 
@@ -2151,6 +2153,23 @@ impl Compiler {
 
         // Copy the class context so private field access works inside the constructor
         func_compiler.class_context_stack = self.class_context_stack.clone();
+
+        // In a derived class `this` exists only once super() has returned: the instance
+        // members are initialised at the super call instead of at the start
+        if has_super {
+            func_compiler.derived_member_inits = Some(Rc::new(super::DerivedMemberInits {
+                fields: instance_fields.iter().map(|f| (*f).clone()).collect(),
+                private_fields: instance_private_fields
+                    .iter()
+                    .map(|f| (*f).clone())
+                    .collect(),
+                private_methods: instance_private_methods
+                    .iter()
+                    .map(|m| (*m).clone())
+                    .collect(),
+                class_brand,
+            }));
+        }
 
         // Reserve registers for parameters
         if !ctor.params.is_empty() {
@@ -2271,20 +2290,22 @@ impl Compiler {
             }
         }
 
-        // Compile instance field initializers at the start of constructor
-        // These run before the user's constructor body (after super() call if extending)
-        for field in instance_fields {
-            func_compiler.compile_instance_field_initializer(field)?;
-        }
+        // Compile instance field initializers at the start of a base class constructor
+        // (a derived class runs them when its super() call returns)
+        if !has_super {
+            for field in instance_fields {
+                func_compiler.compile_instance_field_initializer(field)?;
+            }
 
-        // Initialize instance private fields
-        for field in instance_private_fields {
-            func_compiler.compile_instance_private_field_initializer(field, class_brand)?;
-        }
+            // Initialize instance private fields
+            for field in instance_private_fields {
+                func_compiler.compile_instance_private_field_initializer(field, class_brand)?;
+            }
 
-        // Install instance private methods on 'this'
-        for method in instance_private_methods {
-            func_compiler.compile_instance_private_method_initializer(method, class_brand)?;
+            // Install instance private methods on 'this'
+            for method in instance_private_methods {
+                func_compiler.compile_instance_private_method_initializer(method, class_brand)?;
+            }
         }
 
         // Hoist var declarations in constructor body
@@ -2392,6 +2413,23 @@ impl Compiler {
         });
 
         Ok(chunk)
+    }
+
+    /// Emit the instance member initialisers of a derived class (called right after `super(...)`)
+    pub(super) fn emit_derived_member_inits(&mut self) -> Result<(), JsError> {
+        let Some(inits) = self.derived_member_inits.clone() else {
+            return Ok(());
+        };
+        for field in &inits.fields {
+            self.compile_instance_field_initializer(field)?;
+        }
+        for field in &inits.private_fields {
+            self.compile_instance_private_field_initializer(field, inits.class_brand)?;
+        }
+        for method in &inits.private_methods {
+            self.compile_instance_private_method_initializer(method, inits.class_brand)?;
+        }
+        Ok(())
     }
 
     /// Compile instance field initializer (this.field = value)
